@@ -510,6 +510,59 @@ func c18Main(r *engine.Run) {
 		c18Pair(r, a, geom.NewGeometryCollection(same).AsGeometry(), "duplicates up to rotation")
 	}
 	r.Bound("MultiPolygons / collections of 2..6 members drawn from 6 rotations/reversals of one triangle plus one different triangle: every permutation")
+	// rings with a repeated consecutive vertex (at the start, in the middle, at the closure), XY and Z:
+	// every rotation and direction must be identified by IgnoreOrder, in both argument orders
+	for _, ring := range [][][]float64{
+		{{0, 0}, {0, 0}, {1, 0}, {0, 1}, {0, 0}}, {{0, 0}, {1, 0}, {1, 0}, {0, 1}, {0, 0}}, {{0, 0}, {1, 0}, {0, 1}, {0, 1}, {0, 0}},
+		{{0, 0, 5}, {2, 0, 6}, {2, 0, 6}, {2, 2, 7}, {0, 2, 8}, {0, 0, 5}}, {{0, 0}, {2, 0}, {2, 1}, {2, 1}, {2, 2}, {2, 2}, {0, 2}, {0, 0}},
+	} {
+		ct := geom.DimXY
+		if len(ring[0]) == 3 {
+			ct = geom.DimXYZ
+		}
+		base := refcodec.Node{T: geom.TypeLineString, CT: ct, Coords: ring}
+		g := rebuild(base)
+		m := len(ring) - 1
+		for o := 0; o < m; o++ {
+			for _, rev := range []bool{false, true} {
+				var rot [][]float64
+				for i := 0; i < m; i++ {
+					rot = append(rot, ring[(i+o)%m])
+				}
+				rot = append(rot, rot[0])
+				if rev {
+					for i, j := 0, len(rot)-1; i < j; i, j = i+1, j-1 {
+						rot[i], rot[j] = rot[j], rot[i]
+					}
+				}
+				h := rebuild(refcodec.Node{T: geom.TypeLineString, CT: ct, Coords: rot})
+				c18Pair(r, g, h, fmt.Sprintf("ring with repeated vertex rotated by %d reversed %v", o, rev))
+				c18Pair(r, geom.NewPolygon([]geom.LineString{g.MustAsLineString()}).AsGeometry(), geom.NewPolygon([]geom.LineString{h.MustAsLineString()}).AsGeometry(), "polygon of the same")
+			}
+		}
+	}
+	r.Bound("rings with repeated consecutive vertices: every rotation × direction, as LineString and as Polygon")
+	// tolerance across magnitudes: a displacement d is related iff d ≤ e, from 1e-300 to 1e300
+	for _, sc := range []float64{1e-300, 1e-200, 1e-180, 1e-100, 1e-10, 1, 1e10, 1e100, 1e154, 1e200, 1e300} {
+		for _, dir := range [][2]float64{{1, 0}, {0, 1}, {0.6, 0.8}} {
+			a := geom.NewLineStringXY(0, 0, sc*3, sc*4).AsGeometry()
+			b := geom.NewLineStringXY(sc*dir[0], sc*dir[1], sc*3, sc*4).AsGeometry()
+			for _, k := range []float64{0.1, 0.5, 2, 10} {
+				e := sc * k
+				if e == 0 || math.IsInf(e, 0) {
+					continue
+				}
+				want := math.Hypot(sc*dir[0], sc*dir[1]) <= e
+				r.Evaluations.Add(1)
+				r.Transitions.Add(2)
+				ab, ba := geom.ExactEquals(a, b, geom.ToleranceXY(e)), geom.ExactEquals(b, a, geom.ToleranceXY(e))
+				if ab != want || ba != want {
+					r.Violation("C18/tolerance.acrossMagnitudes", "pair", eqCase{a.AsText(), b.AsText(), fmt.Sprintf("ToleranceXY(%g), displacement %g", e, sc)}, fmt.Sprint(ab, ba, " want ", want))
+				}
+			}
+		}
+	}
+	r.Bound("ToleranceXY at magnitudes 1e-300 .. 1e300: displacement d related iff d ≤ e for e ∈ d×{0.1,0.5,2,10}")
 	// chains: members spaced 0.4 apart compared under IgnoreOrder + ToleranceXY(0.5). "Within e" is
 	// not transitive, so a member has several admissible partners and the matching must backtrack;
 	// a pure permutation must still be equal, in both argument orders.
